@@ -502,8 +502,19 @@ read_more:
 		return (ARCHIVE_FATAL);
 	/* Quiet a code analyzer; make sure avail_in must be zero
 	 * when d is NULL. */
-	if (d == NULL)
+	if (d == NULL) {
 		avail_in = 0;
+		/* The input ends inside an encoded body: the line that
+		 * terminates it ("end" / "====") never came. */
+		if (uudecode->in_cnt == 0 &&
+		    (uudecode->state == ST_READ_UU ||
+		     uudecode->state == ST_READ_BASE64)) {
+			archive_set_error(&self->archive->archive,
+			    ARCHIVE_ERRNO_FILE_FORMAT,
+			    "Truncated uuencoded data");
+			return (ARCHIVE_FATAL);
+		}
+	}
 	used = 0;
 	total = 0;
 	out = uudecode->out_buff;
